@@ -12,6 +12,7 @@ another document is recognisable.
 from __future__ import annotations
 
 import gc
+import os
 import sys
 
 from . import reader, resolver, scopegen
@@ -199,6 +200,9 @@ def execute(case: dict):
                 # explicit failure on a bound name: tolerated ("follows Nix lexical scoping or fails explicitly"),
                 # counted by binder kind so the evidence shows where resolution gives up
                 bump("explicit_failure_on_bound:" + str(exp.binder))
+                # "fails explicitly" is for names that have no value; a name the scoping rules bind to a value must
+                # resolve (the reference answer is a value, the library says ResolutionError)
+                viols.append(Violation("C10.explicit_failure_on_bound", "%s is bound (%r via %s) but resolution failed: %s" % (what, exp.tokens, exp.via, got_exc), step, facts))
         elif exp.kind in ("unbound", "cycle"):
             if got_kind == "value":
                 viols.append(Violation("C10.%s_resolved" % exp.kind, "%s is %s but resolved to %r" % (what, exp.kind, got_tokens), step, facts))
